@@ -79,6 +79,8 @@ def arg(draw, t):
             kind = draw(st.sampled_from(['str_bin', 'str_hex', 'bytes', 'bytearray', 'list', 'tuple', 'bitarray', 'memoryview', 'array', 'BytesIO', 'gen']))
             return ['promo', kind, b]
         return ['obj', draw(st.sampled_from(CLASSES)), b]
+    if t == 'poolobj':
+        return ['pool', draw(st.integers(0, 99))]
     if t == 'bitslist':
         return ['list', [draw(arg('bits')) for _ in range(draw(st.integers(0, 3)))]]
     if t == 'fmt':
@@ -97,6 +99,14 @@ def arg(draw, t):
         if k == 1:
             return ['dtype', draw(st.sampled_from(['uint', 'hex', 'float', 'bits', 'bool', 'e4m3mxfp', 'ue', 'bytes'])), draw(st.sampled_from([None, 0, 1, 8, 16, 12, 64]))]
         return ['str', draw(mutated_text(TOKENS))]
+    if t == 'ppfmt' and draw(st.integers(0, 2)):
+        # grammar: 1-3 tokens, any dtype name, optional length (incl. 0 and illegal ones), both spellings
+        toks = []
+        for _ in range(draw(st.sampled_from([1, 1, 2, 2, 3]))):
+            nm = draw(st.sampled_from(['bin', 'hex', 'oct', 'bytes', 'uint', 'int', 'float', 'bits', 'bool', 'ue', 'se', 'bfloat', 'e4m3mxfp', 'uintle', 'pad', 'b', 'h', 'o', 'u', 'i', 'f', 'mxint', 'e2m1mxfp', 'floatle']))
+            ln = draw(st.sampled_from([None, None, 0, 1, 3, 4, 6, 8, 12, 16, 32, 64]))
+            toks.append(nm if ln is None else (f'{nm}:{ln}' if draw(st.booleans()) else f'{nm}{ln}'))
+        return ['str', ', '.join(toks)]
     if t == 'ppfmt':
         return draw(st.sampled_from([['none'], ['str', 'bin'], ['str', 'hex'], ['str', 'bin, hex'], ['str', 'oct6'], ['str', 'hex:0'], ['str', 'uint8'], ['str', 'float32'], ['str', 'bytes'],
                                      ['str', 'ue'], ['str', 'bin, hex, oct'], ['str', 'hex3'], ['str', ''], ['str', 'bits:7'], ['str', 'bool'], ['str', 'i4, u4'], ['str', 'hex8, bin4']]))
@@ -174,7 +184,7 @@ ARRAY_API = {
 GLOBAL_API = {
     'construct_auto': ['any', 'optint', 'optint'], 'construct_kw': ['propname', 'propvalue', 'optint', 'optint'], 'construct_bytes': ['bits', 'optint', 'optint'], 'construct_int': ['sizeint'],
     'construct_pos': ['bits', 'int'], 'pack': ['packfmt', 'numlist'], 'Dtype': ['dtypespec', 'optint', 'number'], 'dtype_build': ['dtypespec', 'propvalue'], 'dtype_parse': ['dtypespec', 'bits'],
-    'Array': ['dtypespec', 'numlist', 'bits'], 'Array_int': ['dtypespec', 'sizeint'], 'Array_bits': ['dtypespec', 'bits'], 'set_option': ['propname', 'propvalue'],
+    'pack_obj': ['poolobj', 'bits', 'bool'], 'Array': ['dtypespec', 'numlist', 'bits'], 'Array_int': ['dtypespec', 'sizeint'], 'Array_bits': ['dtypespec', 'bits'], 'set_option': ['propname', 'propvalue'],
 }
 OP_KW = {'find': ['start', 'end', 'bytealigned'], 'cut': ['start', 'end', 'count']}
 
@@ -449,6 +459,21 @@ class W:
             return sc(a[0], pos=a[1])
         if name == 'pack':
             return bs.pack(a[0], *a[1], n=3)
+        if name == 'pack_obj':
+            x = a[0]
+            n = len(x) if hasattr(x, '__len__') and isinstance(x, bs.Bits) else None
+            fmt = ['bits', f'bits:{n}' if n is not None else 'bits', 'bits, bits', 'hex:4=f, bits', 'bits=v'][len(str(a[1])) % 5]
+            if fmt == 'bits, bits':
+                r = bs.pack(fmt, x, a[1])
+            elif fmt == 'bits=v':
+                r = bs.pack(fmt, v=x)
+            else:
+                r = bs.pack(fmt, x)
+            if a[2] and len(r):
+                # use the packed stream the way a caller would: edit it in place (must never reach the value it was packed from)
+                r.invert(0)
+                r.append('0b1')
+            return r
         if name == 'Dtype':
             tok = a[0]
             if isinstance(tok, bs.Dtype):
@@ -532,7 +557,7 @@ def pool_st(draw):
         out.append(['bs', cls, b, draw(st.integers(0, len(b)))])
     out.append(['bs', draw(st.sampled_from(MUTABLE)), draw(bits_st(max_len=48, min_len=1)), 0])
     out.append(['bs', draw(st.sampled_from(STREAMS)), draw(bits_st(max_len=48, min_len=1)), 0])
-    if draw(st.booleans()):
+    if draw(st.integers(0, 3)):
         out.append(['array', draw(st.sampled_from(['uint8', 'int4', 'float16', 'hex4', 'bool', '<h', 'e4m3mxfp', 'bytes2'])), draw(st.sampled_from([[], [0], [0, 1], [1, 0, 1]]))])
         if out[-1][1] == 'hex4':
             out[-1][2] = ['a', 'f'][:len(out[-1][2])]
@@ -544,12 +569,17 @@ def pool_st(draw):
 
 def step_strategy(areas):
     tables = {'bits': BITS_API, 'mut': MUT_API, 'stream': STREAM_API, 'array': ARRAY_API, 'global': GLOBAL_API}
+    PP = [('bits', 'pp'), ('array', 'pp'), ('bits', 'op:str'), ('bits', 'op:repr'), ('array', 'op:repr'), ('global', 'set_option'), ('bits', 'pp'), ('array', 'pp')]
 
     @st.composite
     def f(draw):
         area = draw(st.sampled_from(areas))
-        t = tables[area]
-        name = draw(st.sampled_from(sorted(t)))
+        if area == 'pp':
+            area, name = draw(st.sampled_from(PP))
+            t = tables[area]
+        else:
+            t = tables[area]
+            name = draw(st.sampled_from(sorted(t)))
         return [area, name, draw(st.integers(0, 99)), [draw(arg(x)) for x in t[name]]]
     return f()
 
@@ -588,5 +618,6 @@ SUBCHECKS = [
     Sub('C20.mutators', run, strategy=case_st(['mut', 'mut', 'bits'], 8), examples={'quick': 10000, 'thorough': 150000}),
     Sub('C20.stream', run, strategy=case_st(['stream', 'stream', 'mut'], 8), examples={'quick': 8000, 'thorough': 120000}),
     Sub('C20.array', run, strategy=case_st(['array', 'array', 'global'], 8), examples={'quick': 8000, 'thorough': 120000}),
+    Sub('C20.print', run, strategy=case_st(['pp'], 6), examples={'quick': 6000, 'thorough': 80000}),
     Sub('C20.history', run, strategy=case_st(['bits', 'mut', 'stream', 'array', 'global'], 25), examples={'quick': 5000, 'thorough': 80000}),
 ]
